@@ -129,6 +129,11 @@ func genSess(seed uint64, prop string) *Scenario {
 			st := g.batchStep(s, ops)
 			st.T = "ops"
 			st.B = g.weighted(6, 2, 2, 2, 2, 1) // 0 own last, 1 stale own, 2 other's last, 3 max, 4 max+1, 5 unset
+			if st.B == 0 && len(ops) >= 2 && r.IntN(3) == 0 {
+				// mixed stamps inside ONE request: the operations whose bit is set carry a wrong id (future or stale), the
+				// others the right one - each is judged on its own stamp
+				st.A = 1 + r.IntN(1<<uint(len(ops))-2)
+			}
 			sc.Steps = append(sc.Steps, st)
 		case 3:
 			sc.Steps = append(sc.Steps, Step{T: "multi", Sess: s, A: r.IntN(4)})
@@ -460,10 +465,19 @@ func (sr *sessRun) step(st *Step) {
 		}
 		admitted := m.single && m.preserve && stamp != nil && m.last != nil && sr.el.max != nil &&
 			sr.el.primary == n && *stamp == *m.last && *stamp == *sr.el.max
-		for _, op := range ops {
+		wrong := map[uint64]bool{}
+		for i, op := range ops {
 			op.ElectionId = nil
 			if stamp != nil {
 				op.ElectionId = uint128(*stamp)
+			}
+			if admitted && st.A&(1<<uint(i)) != 0 && i < 30 {
+				bad := add128(*stamp, 1) // a future id
+				if m.prev != nil && *m.prev != *stamp && i%2 == 1 {
+					bad = *m.prev // a stale one
+				}
+				op.ElectionId = uint128(bad)
+				wrong[op.GetId()] = true
 			}
 			e.opSeq++
 			rec := &opRec{op: op, sess: s.idx, seq: e.opSeq}
@@ -472,6 +486,46 @@ func (sr *sessRun) step(st *Step) {
 		}
 		rs := sr.send(s, &spb.ModifyRequest{Operation: ops})
 		m.gotMsg = true
+		if admitted && len(wrong) > 0 {
+			// the wrongly stamped ones must be FAILED without a trace; the others go through the ordinary oracle
+			e.probe("admission: right and wrong stamps mixed in one request")
+			var rest []*spb.ModifyResponse
+			for _, r := range rs {
+				keep := &spb.ModifyResponse{}
+				for _, res := range r.GetResult() {
+					rec := s.sent[res.GetId()]
+					switch {
+					case rec != nil && wrong[res.GetId()]:
+						if res.GetStatus() != spb.AFTResult_FAILED {
+							e.report("C04", "inadmissible-accepted", "operation stamped with an id that is not the session's last announced id (among correctly stamped ones)", fmt.Sprintf("%s: %s answered %s", what, describeOp(rec.op), res.GetStatus()), false)
+						}
+						rec.state = opFailed
+					case rec != nil && res.GetStatus() == spb.AFTResult_FAILED:
+						if v, _, _ := e.model.Expect(rec.op); v == VProgram {
+							e.report("C04", "admissible-rejected", "a correctly stamped operation of the primary was FAILED because another operation of the same request carried a wrong id", fmt.Sprintf("%s: %s", what, describeOp(rec.op)), false)
+						}
+						keep.Result = append(keep.Result, res)
+					default:
+						keep.Result = append(keep.Result, res)
+					}
+				}
+				if len(keep.Result) > 0 || len(r.GetResult()) == 0 {
+					rest = append(rest, keep)
+				}
+			}
+			for id := range wrong {
+				if rec := s.sent[id]; rec != nil && rec.state == opSent && !s.dead {
+					e.report("C04", "inadmissible-unanswered", "wrongly stamped operation among correctly stamped ones", fmt.Sprintf("%s: %s got neither FAILED nor an RPC error", what, describeOp(rec.op)), false)
+					rec.state = opFailed
+				}
+			}
+			e.processResults(s, rest)
+			if s.dead {
+				e.checkTermination(s, s.termErr)
+				sr.kill(n)
+			}
+			return
+		}
 		if admitted {
 			e.probe("admission: primary's correctly stamped operations")
 			e.processResults(s, rs)
